@@ -205,7 +205,7 @@ where
 {
     let mut acc = Acc::new();
     let mut rng = Rng::stream(ctx.seed, 650 + tindex, shard as u64);
-    let specials: Vec<f64> = vec![0.0, -0.0, 1.0, -1.0, 1e-30, -1e-30, 1e30, 2.5, -2.5, 0.1];
+    let specials: Vec<f64> = vec![0.0, -0.0, 1.0, -1.0, 1e-30, -1e-30, 1e30, 2.5, -2.5, 0.1, f64::NAN, f64::INFINITY, f64::NEG_INFINITY];
     for _ in 0..ctx.n(300, 300000) {
         let shape = T::shape((1 + rng.below(3), 1));
         let b = Basis::new(&shape);
@@ -249,12 +249,15 @@ where
             ("min", re(&RealField::min(a.clone(), bb.clone())), fr(RealField::min(fa, fb))),
         ];
         for (name, g, w) in sel {
+            if a0.is_nan() || b0.is_nan() {
+                continue;
+            }
             acc.observe(&format!("{}|{}", name, tname), true);
             if g != w {
                 acc.violate(format!("{}:{}", name, tname), format!("RealField::{} on {} with real parts {:e}, {:e}: real part {:e}, float gives {:e}", name, tname, a0, b0, g, w), case());
             }
         }
-        if b0 <= c0 {
+        if b0 <= c0 && !a0.is_nan() {
             let g = re(&RealField::clamp(a.clone(), bb.clone(), c.clone()));
             let w = fr(RealField::clamp(fa, fb, fc));
             acc.observe(&format!("clamp|{}", tname), true);
